@@ -82,7 +82,10 @@ def lint_universe():
 
 def cases(tier, seed):
     if tier == "quick":
-        return stratified_sample(universe(), lambda c: c.get("stratum", ""), 220, seed) + stratified_sample(lint_universe(), lambda c: c.get("stratum", ""), 900, seed)
+        lu = lint_universe()
+        # quick: every dialect fixture is linted (cheap), mutants are sampled
+        return (stratified_sample(universe(), lambda c: c.get("stratum", ""), 200, seed) + [c for c in lu if c["kind"] == "fx"]
+                + stratified_sample([c for c in lu if c["kind"] != "fx"], lambda c: c.get("stratum", ""), 300, seed))
     return universe() + lint_universe()
 
 
